@@ -414,7 +414,9 @@ def judge(label, qc, fw, mode, st, solver, pre=None):
         src_par = [p for g, w, p in qc.gates if p is not None and not g.is_nop()]
         imp_par = [p for g, w, p in imp if p is not None]
         if len(src_par) == len(imp_par) and src_par:
-            worst = max(abs(a - b) for a, b in zip(src_par, imp_par))
+            # as multisets: a reader may list commuting gates in another order (qiskit's gate
+            # definition does); the order itself is the unitary query's business
+            worst = max(abs(a - b) for a, b in zip(sorted(src_par), sorted(imp_par)))
             if worst > 1e-9:
                 out.append(("phase-wrong", "%s export carries angles %s for %s (off by up to %.2e)" % (fw, [round(x, 6) for x in imp_par][:4], [round(x, 6) for x in src_par][:4], worst)))
                 return out
